@@ -3,6 +3,7 @@ package kit
 import (
 	"container/list"
 	"fmt"
+	"strings"
 
 	"github.com/Jigsaw-Code/outline-sdk/transport/shadowsocks"
 	"github.com/Jigsaw-Code/outline-ss-server/service"
@@ -49,12 +50,24 @@ func GenKeyUniverse(t *rapid.T, minN, maxN int) []KeySpec {
 		k := KeySpec{ID: fmt.Sprintf("k%d", i)}
 		mode := 0
 		if i > 0 {
-			mode = rapid.SampledFrom([]int{0, 0, 0, 0, 1, 2}).Draw(t, "dupmode")
+			mode = rapid.SampledFrom([]int{0, 0, 0, 0, 1, 2, 3}).Draw(t, "dupmode")
 		}
 		switch mode {
 		case 1: // same material as an earlier key
 			j := rapid.IntRange(0, i-1).Draw(t, "dupof")
 			k.Cipher, k.Secret = keys[j].Cipher, keys[j].Secret
+		case 3: // same cipher, a secret that differs from an earlier one only in letter case: a different key
+			j := rapid.IntRange(0, i-1).Draw(t, "dupof")
+			k.Cipher = keys[j].Cipher
+			k.Secret = strings.Map(func(r rune) rune {
+				switch {
+				case r >= 'a' && r <= 'z':
+					return r - 32
+				case r >= 'A' && r <= 'Z':
+					return r + 32
+				}
+				return r
+			}, keys[j].Secret)
 		case 2: // same secret, other cipher
 			j := rapid.IntRange(0, i-1).Draw(t, "dupof")
 			k.Secret = keys[j].Secret
